@@ -356,9 +356,9 @@ def encKids (T : Tables) (ec : EC) (strict : Bool) : List Node → R (List Str)
 def encOrder (strict : Bool) (rows : Option (List SRow)) (kids : List Node) (parts : List Str) : Str :=
   let named := (kids.map (·.name)).zip parts
   if strict then
-    match rows with
-    | some rs => join '\r' (((keyed rs).map (·.1)).flatMap (fun k => (named.filter (·.1 == k)).map (·.2)))
-    | none => []        -- `ordered_children` is None: unreachable for parsed STRICT messages
+    -- structure order first, then the children the structure does not name (Z segments), in list order (repair of D28)
+    let keys : List String := match rows with | some rs => (keyed rs).map (fun kr => kr.1) | none => []
+    join '\r' (keys.flatMap (fun k => (named.filter (fun p => p.1 == k)).map (fun p => p.2)) ++ (named.filter (fun p => !keys.contains p.1)).map (fun p => p.2))
   else join '\r' parts
 end
 
